@@ -62,6 +62,9 @@ def gen_cases(rng, tier, ctx):
     base = list(cases)
     for _ in range(60 if tier == 'quick' else 1200):
         cases.append(G.malform(rng, rng.choice(base)))
+    # constant siblings at equal voltage around nested non-constant sub-programs (constant folding in to_waveform)
+    for _ in range(70 if tier == 'quick' else 1500):
+        cases.append(G.gen_fold_case(rng))
     return cases
 
 
@@ -198,12 +201,49 @@ def run_impl(case):
                         row.append([vlib.frac_json(t), None if math.isnan(v) else
                                     ('inf' if math.isinf(v) else vlib.frac_json(v))])
                     samples.append([ch, row])
-                return {'chans': chans, 'dur': vlib.frac_json(dur), 'prog_dur': vlib.frac_json(prog.duration),
-                        'samples': samples}
+                out = {'chans': chans, 'dur': vlib.frac_json(dur), 'prog_dur': vlib.frac_json(prog.duration),
+                       'samples': samples}
+                out.update(_render_obs(prog, w, chans, dur, set(ts)))
+                return out
         except vlib.Timeout:
             return {'hang': True}
         except Exception as e:
             return {'crash': 'sampling: %s: %s' % (type(e).__name__, str(e)[:200])}
+
+
+def _render_obs(prog, w, chans, dur, grid):
+    """second observation point of the property: qupulse.plotting.render(program, sample_rate=4).  All rendered samples
+    inside [0, duration) are compared (in Python, exactly) with get_sampled on the same times; the rendered samples on
+    the check's grid additionally go to Coq as extra sample rows (model + denotation oracle)."""
+    import numpy as np
+    from qupulse.plotting import render
+    if (dur * 4).denominator != 1 or dur * 4 < 1 or dur * 4 > 4000:
+        return {}
+    times, volt, _ = render(prog, sample_rate=4)
+    times = times[:-1]                      # the last point is nextafter(duration): outside the half-open interval
+    out = {'render_points': int(len(times))}
+    if set(volt) != set(chans):
+        out['render_mismatch'] = 'render shows channels %r, to_waveform defines %r' % (sorted(map(str, volt)), chans)
+        return out
+    fts = [vlib.to_fraction(float(t)) for t in times]
+    rows = []
+    for ch in chans:
+        ref = w.get_sampled(ch, np.array(times))
+        got = volt[ch][:-1]
+        for t, a, b in zip(fts, got, ref):
+            a, b = float(a), float(b)
+            if not (a == b or (math.isnan(a) and math.isnan(b))) and 'render_mismatch' not in out:
+                out['render_mismatch'] = 'render gives %r on %r at t=%s, get_sampled gives %r' % (a, ch, t, b)
+        sel = [(t, float(v)) for t, v in zip(fts, got) if t in grid][:24]
+        rows.append([ch, [[vlib.frac_json(t), None if math.isnan(v) else ('inf' if math.isinf(v) else vlib.frac_json(v))]
+                          for t, v in sel]])
+    out['render'] = rows
+    return out
+
+
+def py_spec(case, obs):
+    """render(program) and to_waveform(program).get_sampled must show the same voltages inside [0, duration)"""
+    return obs.get('render_mismatch')
 
 
 # ---------------------------------------------------------------------------------------------------------------------
@@ -303,7 +343,7 @@ def to_coq(case, obs):
     elif 'none' in obs:
         o = 'ONone'
     else:
-        for _, row in obs['samples']:
+        for _, row in obs['samples'] + obs.get('render', []):
             if any(v == 'inf' for _, v in row):
                 return 'CCrash'
         if obs['dur'] != obs['prog_dur']:
@@ -311,7 +351,8 @@ def to_coq(case, obs):
         o = '(OProg %s %s %s)' % (
             g_list(nm.c(c) for c in obs['chans']), gQ(F(obs['dur'])),
             g_list('(%s, %s)' % (nm.c(ch), g_list('(%s, %s)' % (gQ(F(t)), 'None' if v is None else '(Some %s)' % gQ(F(v)))
-                                                  for t, v in row)) for ch, row in obs['samples']))
+                                                  for t, v in row))
+                   for ch, row in obs['samples'] + [r for r in obs.get('render', []) if r[1]]))
     return '(CCase %s %s %s %s)' % (p, env, cm, o)
 
 
@@ -336,6 +377,11 @@ def histogram_keys(case, obs):
         keys.append('top-renamed-channel')
     if 'malformed' in case:
         keys.append('malformed:' + case['malformed'])
+    if 'fold' in case:
+        keys.append('fold-stream')
+        keys.append('fold:' + case['fold'].split('/')[1])
+    if 'render' in obs:
+        keys.append('render-observed')
     return keys
 
 
